@@ -19,6 +19,7 @@ def timed_case(draw, max_sources=3):
                                              st.floats(min_value=1e-4, max_value=5.0, allow_nan=False))),
                     "times": draw(st.sampled_from([0, 1, 1, 2, 3, 4, 6])),
                     "zero": draw(st.integers(0, 9)) == 0,
+                    "omit_times": draw(st.booleans()),     # an endless source asked for by leaving times out
                     "deferred": draw(st.sampled_from([True, True, False, None]))})
   for src in sources:
     # a zero period is a period too: n immediate postings (never generated as an endless source)
@@ -127,6 +128,8 @@ class C10(Prop):
       for k, src in enumerate(case["sources"]):
         e = Event(signal=signals["VB"], payload=k)
         kw = {"period": src["period"], "times": src["times"]}
+        if src["times"] == 0 and src.get("omit_times"):
+          del kw["times"]        # the documented heart-beat form: post_fifo(e, period=0.7)
         if src["deferred"] is not None:
           kw["deferred"] = src["deferred"]
         ids.append(getattr(chart, "post_" + src["kind"])(e, **kw))
